@@ -84,6 +84,19 @@ def run(mod, tier, seed, replay=None):
             pviol.append((line, io, mo, why))
         elif have_driver and io != mo:
             disagreements.append((line, io, mo))
+    # T-out: the model's decidable outcome predicate, evaluated by the Lean driver on the
+    # implementation's own observation (optional second pass of a check module)
+    outcome_checked = 0
+    if hasattr(mod, "second_pass") and have_driver:
+        lines2 = [(mod.second_pass(l, io) if io is not None else None) for l, io in zip(cases, impl)]
+        idx = [i for i, l in enumerate(lines2) if l]
+        outs, _, _ = C.run_lines(C.driver_bin(), [prop], [lines2[i] for i in idx], timeout=900)
+        already = {l for l, _, _, _ in pviol}
+        for i, o in zip(idx, outs):
+            outcome_checked += 1
+            if o != "ok" and cases[i] not in already:
+                pviol.append((cases[i], impl[i], model[i],
+                              f"the model's outcome predicate (`allowed`, Lean) does not admit the implementation's observation: {o}"))
     for line, io, mo in zip(cases[:3], impl[:3], model[:3]):
         samples.append({"case": line[:400], "impl": (io or "")[:400], "model": (mo or "")[:400]})
 
@@ -163,6 +176,8 @@ def run(mod, tier, seed, replay=None):
         "disagreements": len(disagreements), "property_predicate_failures": len(pviol),
         "impl_missing_outputs": sum(1 for i in impl if i is None),
     }
+    if hasattr(mod, "second_pass"):
+        cov["outcome_predicate_evaluations"] = outcome_checked
     cov.update(getattr(mod, "extra_coverage", lambda: {})())
     C.write_evidence(prop, tier, seed, mod.LEVEL, cov, getattr(mod, "ASSUMPTIONS", []), time.time() - t0,
                      len(rep.violations))
